@@ -11,6 +11,7 @@ for patch in "$D"/r*.diff "$D"/patch.diff "$D"/*/patch.diff; do
   out=$(VERIF_NOWRITE=1 bin/seqverif -n -property all -repo /repo -verif /verif 2>&1)
   git -C /repo checkout -- . ; git -C /repo clean -fdq -- . 2>/dev/null
   n=$(echo "$out" | grep -cE "^\s+(VIOLATED|UNDECIDED)")
+  if ! echo "$out" | grep -q "^C20: obligations="; then echo "== $patch: ANALYSIS DID NOT RUN (does the patched tree type-check?)"; echo "$out" | tail -3; continue; fi
   echo "== $patch: $n report(s)"
   echo "$out" | grep -E "^\s+(VIOLATED|UNDECIDED)" -A2 | grep -v "rule:" | cut -c1-330
 done
